@@ -22,7 +22,7 @@ func init() {
 			return append(msListScenarios(c06Scens(tier)), c06SeqList(tier)...)
 		},
 		Run: func(c *vh.Ctx) {
-			if strings.HasPrefix(c.Scenario, "C06seq") || c06IsSeqReplay(c) {
+			if strings.Contains(c.Scenario, "C06seq") || c06IsSeqReplay(c) {
 				c06SeqRun(c)
 				return
 			}
